@@ -33,7 +33,18 @@ class Watchdog(Exception):
     pass
 
 
-def _alarm(_sig, _frm):
+_HANG = {"where": ""}
+
+
+def _alarm(_sig, frm):
+    # remember where the code was when the watchdog fired (two innermost pymarkdown functions)
+    names = []
+    f = frm
+    while f is not None and len(names) < 2:
+        if "/pymarkdown/" in f.f_code.co_filename:
+            names.append("%s:%s" % (os.path.basename(f.f_code.co_filename), f.f_code.co_name))
+        f = f.f_back
+    _HANG["where"] = "<".join(names)
     raise Watchdog()
 
 
@@ -103,24 +114,31 @@ def default_tokenizer():
 
 
 def parse(text, tk=None, timeout=5, want_events=False):
-    """tokens or ('EXC', kind, detail). Watchdog -> ('EXC','Watchdog',..)."""
+    """tokens, or ('EXC', exception type, message, innermost pymarkdown function).
+    A parse that uses more than `timeout` seconds of CPU time (ITIMER_VIRTUAL: insensitive to machine load) -> 'Watchdog'."""
     from pymarkdown.general import verif_probe
     tk = tk or default_tokenizer()
     events = []
     verif_probe.set_sink(events.append if want_events else None)
-    old_handler = signal.signal(signal.SIGALRM, _alarm)
-    signal.alarm(timeout)
+    old_handler = signal.signal(signal.SIGVTALRM, _alarm)
+    signal.setitimer(signal.ITIMER_VIRTUAL, timeout)
     try:
         toks = tk.transform(text, show_debug=False)
+        signal.setitimer(signal.ITIMER_VIRTUAL, 0)
         return (toks, events) if want_events else toks
     except Watchdog:
-        r = ("EXC", "Watchdog", "")
+        r = ("EXC", "Watchdog", "", _HANG["where"])
     except Exception as ex:  # pylint: disable=broad-except
-        c = ex.__cause__
-        r = ("EXC", type(c).__name__ if c else type(ex).__name__, str(c if c else ex)[:200])
+        c = ex.__cause__ or ex
+        import traceback
+        where = ""
+        tb = [f for f in traceback.extract_tb(c.__traceback__) if "/pymarkdown/" in f.filename]
+        if tb:
+            where = "%s:%s" % (os.path.basename(tb[-1].filename), tb[-1].name)
+        r = ("EXC", type(c).__name__, str(c)[:120], where)
     finally:
-        signal.alarm(0)
-        signal.signal(signal.SIGALRM, old_handler)
+        signal.setitimer(signal.ITIMER_VIRTUAL, 0)
+        signal.signal(signal.SIGVTALRM, old_handler)
         verif_probe.set_sink(None)
     return (r, events) if want_events else r
 
